@@ -1095,3 +1095,279 @@ Proof. intros t rest H. apply spec_ser; [assumption |]. unfold spec_fuel. rewrit
 Lemma enc_wellformed_lemma : forall (O : eopts) (i : item),
   eo_optsize O = false -> wf i -> plain i -> enc O i = ser (tree_of O i) /\ twf (tree_of O i).
 Proof. intros O i Ho Hw Hp. split; [apply enc_ser; assumption | apply tree_of_twf; assumption]. Qed.
+
+(* ------------------------------------------------------------------ *)
+(* the second parser (nextValueBytes) walks exactly one well-formed item *)
+Definition skip_ok (D : dopts) (t : wtree) : Prop :=
+  forall f d r rest, (2 * length (ser t) + 1 <= f)%nat -> (d + sdepth t < maxdepth D)%Z ->
+  fst (skipw D f d r (ser t ++ rest)) = Ok rest.
+
+Lemma skipw_S : forall D f' d r bd b1,
+  skipw D (S f') d r (bd :: b1) = skip_body D f' (skipw D f') (skip_n D f') (skip_indef D f') d r bd b1.
+Proof. reflexivity. Qed.
+Lemma skip_n_S : forall D f' d r n b,
+  skip_n D (S f') d r n b = if n =? 0 then (Ok b, r) else doI b1 <- skipw D f' d r b ;; skip_n D f' d r (n - 1) b1.
+Proof. reflexivity. Qed.
+Lemma skip_indef_S : forall D f' d r pairs bd b0,
+  skip_indef D (S f') d r pairs (bd :: b0) =
+  if bd =? bdBreak then (Ok b0, r)
+  else doI b1 <- skipw D f' d r (bd :: b0) ;;
+       doI b2 <- (if pairs then skipw D f' d r b1 else (Ok b1, r)) ;;
+       skip_indef D f' d r pairs b2.
+Proof. reflexivity. Qed.
+
+Lemma fold_max_Forall {A} (g : A -> Z) : forall l d M,
+  (d + fold_right (fun x m => Z.max (g x) m) 0 l < M)%Z -> Forall (fun x => (d + g x < M)%Z) l.
+Proof. induction l; intros; constructor; simpl in H; [lia | apply IHl; lia]. Qed.
+
+Lemma skip_n_ser : forall D l, Forall (skip_ok D) l ->
+  forall f d r rest, (2 * length (flat_map ser l) + 2 <= f)%nat ->
+  Forall (fun x => (d + sdepth x < maxdepth D)%Z) l ->
+  fst (skip_n D f d r (N.of_nat (length l)) (flat_map ser l ++ rest)) = Ok rest.
+Proof.
+  intros D l H. induction H as [| x l Hx Hl IH]; intros f d r rest Hf Hd.
+  - destruct f; [simpl in Hf; lia |]. reflexivity.
+  - inversion Hd; subst. destruct f; [simpl in Hf; lia |]. rewrite skip_n_S.
+    replace (N.of_nat (length (x :: l)) =? 0) with false by (symmetry; apply N.eqb_neq; cbn [length]; lia).
+    cbn [flat_map] in *. rewrite app_length in Hf. rewrite <- app_assoc. pose proof (ser_len_pos x).
+    erewrite fst_bindI by (apply Hx; [lia | assumption]).
+    replace (N.of_nat (length (x :: l)) - 1) with (N.of_nat (length l)) by (cbn [length]; lia).
+    apply IH; [lia | assumption].
+Qed.
+
+Lemma skip_indef_arr_ser : forall D l, Forall (skip_ok D) l -> Forall twf l ->
+  forall f d r rest, (2 * length (flat_map ser l) + 2 <= f)%nat ->
+  Forall (fun x => (d + sdepth x < maxdepth D)%Z) l ->
+  fst (skip_indef D f d r false (flat_map ser l ++ 255 :: rest)) = Ok rest.
+Proof.
+  intros D l H. induction H as [| x l Hx Hl IH]; intros Hw f d r rest Hf Hd.
+  - destruct f; [simpl in Hf; lia |]. reflexivity.
+  - inversion Hd; subst. inversion Hw as [| ? ? Hwx Hwl]; subst.
+    destruct f; [simpl in Hf; lia |].
+    cbn [flat_map] in *. rewrite app_length in Hf. rewrite <- app_assoc. pose proof (ser_len_pos x).
+    destruct (ser_hd x Hwx) as (bd & tl & E & Hne).
+    assert (E2 : ser x ++ flat_map ser l ++ 255 :: rest = bd :: (tl ++ flat_map ser l ++ 255 :: rest)) by (rewrite E; reflexivity).
+    rewrite E2. rewrite skip_indef_S.
+    replace (bd =? bdBreak) with false by (symmetry; apply N.eqb_neq; exact Hne).
+    rewrite <- E2.
+    erewrite fst_bindI by (apply Hx; [lia | assumption]).
+    erewrite fst_bindI by reflexivity.
+    apply IH; [assumption | lia | assumption].
+Qed.
+
+Lemma skip_indef_map_ser : forall D l, Forall (fun kv => skip_ok D (fst kv) /\ skip_ok D (snd kv)) l ->
+  Forall (fun kv => twf (fst kv) /\ twf (snd kv)) l ->
+  forall f d r rest, (2 * length (flat_map pair_ser l) + 2 <= f)%nat ->
+  Forall (fun kv => (d + sdepth (fst kv) < maxdepth D)%Z /\ (d + sdepth (snd kv) < maxdepth D)%Z) l ->
+  fst (skip_indef D f d r true (flat_map pair_ser l ++ 255 :: rest)) = Ok rest.
+Proof.
+  intros D l H. induction H as [| kv l [Hk Hv] Hl IH]; intros Hw f d r rest Hf Hd.
+  - destruct f; [simpl in Hf; lia |]. reflexivity.
+  - inversion Hd as [| ? ? [Hd1 Hd2] Hd']; subst. inversion Hw as [| ? ? [Hwk Hwv] Hwl]; subst.
+    destruct f; [simpl in Hf; lia |].
+    cbn [flat_map] in *. unfold pair_ser at 1 in Hf. unfold pair_ser at 1.
+    rewrite !app_length in Hf. rewrite <- !app_assoc.
+    pose proof (ser_len_pos (fst kv)). pose proof (ser_len_pos (snd kv)).
+    destruct (ser_hd (fst kv) Hwk) as (bd & tl & E & Hne).
+    assert (E2 : ser (fst kv) ++ ser (snd kv) ++ flat_map pair_ser l ++ 255 :: rest
+                 = bd :: (tl ++ ser (snd kv) ++ flat_map pair_ser l ++ 255 :: rest)) by (rewrite E; reflexivity).
+    rewrite E2. rewrite skip_indef_S.
+    replace (bd =? bdBreak) with false by (symmetry; apply N.eqb_neq; exact Hne).
+    rewrite <- E2.
+    erewrite fst_bindI by (apply Hk; [lia | assumption]).
+    erewrite fst_bindI by (apply Hv; [lia | assumption]).
+    apply IH; [assumption | lia | assumption].
+Qed.
+
+Lemma skip_chunks_ser : forall mt cs,
+  Forall (fun c => fits (fst c) (N.of_nat (length (snd c))) /\ bytes_ok (snd c)) cs ->
+  forall f rest, (length cs + 1 <= f)%nat ->
+  skip_chunks f (flat_map (chunk_ser mt) cs ++ 255 :: rest) = Ok rest.
+Proof.
+  intros mt cs H. induction H as [| c cs [Hfit _] Hcs IH]; intros f rest Hf.
+  - destruct f; [simpl in Hf; lia |]. reflexivity.
+  - destruct f; [simpl in Hf; lia |].
+    cbn [flat_map]. unfold chunk_ser at 1. rewrite shead_cons. rewrite <- !app_assoc. cbn [app skip_chunks].
+    pose proof (ai_of_le _ _ Hfit) as Hai.
+    rewrite (head_neq mt _ bdBreak) by (assumption || reflexivity).
+    rewrite hd_mod by lia. rewrite uint_bytes_head by assumption. cbn [bind].
+    rewrite rskip_app. cbn [bind].
+    apply IH. simpl in Hf. lia.
+Qed.
+
+Lemma pairs_flat : forall l : list (wtree * wtree),
+  flat_map pair_ser l = flat_map ser (flat_map (fun kv => [fst kv; snd kv]) l).
+Proof. induction l; cbn [flat_map app]; [reflexivity |]. unfold pair_ser at 1. rewrite IHl, <- app_assoc. reflexivity. Qed.
+
+Lemma pairs_flat_len : forall l : list (wtree * wtree), length (flat_map (fun kv => [fst kv; snd kv]) l) = (2 * length l)%nat.
+Proof. induction l; cbn [flat_map app length]; [reflexivity | rewrite IHl; lia]. Qed.
+
+Theorem skip_ser : forall D t, twf t -> skippable t -> skip_ok D t.
+Proof.
+  intros D t. induction t using wtree_ind'; intros Hw Hs f d r rest Hf Hd; (destruct f as [| f']; [exfalso; lia |]).
+  - cbn [ser twf] in *. rewrite shead_cons. cbn [app]. rewrite skipw_S. unfold skip_body.
+    pose proof (ai_of_le _ _ Hw). rewrite kind_head, hd_mod by lia. rewrite (proj1 kind_vals). cbv iota.
+    rewrite fst_liftI, uint_bytes_head by assumption. reflexivity.
+  - cbn [ser twf] in *. rewrite shead_cons. cbn [app]. rewrite skipw_S. unfold skip_body.
+    pose proof (ai_of_le _ _ Hw). rewrite kind_head, hd_mod by lia. rewrite (proj1 (proj2 kind_vals)). cbv iota.
+    rewrite fst_liftI, uint_bytes_head by assumption. reflexivity.
+  - cbn [ser twf] in *. destruct Hw as [Hw _]. rewrite shead_cons. rewrite <- app_assoc. cbn [app]. rewrite skipw_S. unfold skip_body.
+    pose proof (ai_of_le _ _ Hw). rewrite kind_head by lia. rewrite (proj1 (proj2 (proj2 kind_vals))). cbv iota.
+    rewrite (head_neq 2 _ bdIndefBytes), (head_neq 2 _ bdIndefString) by (assumption || reflexivity). cbn [orb].
+    rewrite hd_mod by lia. rewrite fst_liftI, uint_bytes_head by assumption. cbn [bind]. apply rskip_app.
+  - cbn [ser twf] in *. cbn [app]. rewrite skipw_S. unfold skip_body.
+    change (kind_of 95) with KBytes. cbv iota. change ((95 =? bdIndefBytes) || (95 =? bdIndefString)) with true. cbv iota.
+    rewrite fst_liftI.
+    change (flat_map (fun c => shead 2 (fst c) (N.of_nat (length (snd c))) ++ snd c) cs) with (flat_map (chunk_ser 2) cs).
+    rewrite <- app_assoc. cbn [app]. apply skip_chunks_ser; [assumption |].
+    rewrite !app_length in Hf. cbn [length] in Hf.
+    assert (length cs <= length (flat_map (fun c => shead 2 (fst c) (N.of_nat (length (snd c))) ++ snd c) cs))%nat
+      by (apply flat_len_ge; intros; rewrite shead_cons; cbn [app length]; lia).
+    lia.
+  - cbn [ser twf] in *. destruct Hw as [Hw _]. rewrite shead_cons. rewrite <- app_assoc. cbn [app]. rewrite skipw_S. unfold skip_body.
+    pose proof (ai_of_le _ _ Hw). rewrite kind_head by lia. rewrite (proj1 (proj2 (proj2 (proj2 kind_vals)))). cbv iota.
+    rewrite (head_neq 3 _ bdIndefBytes), (head_neq 3 _ bdIndefString) by (assumption || reflexivity). cbn [orb].
+    rewrite hd_mod by lia. rewrite fst_liftI, uint_bytes_head by assumption. cbn [bind]. apply rskip_app.
+  - cbn [ser twf] in *. cbn [app]. rewrite skipw_S. unfold skip_body.
+    change (kind_of 127) with KText. cbv iota. change ((127 =? bdIndefBytes) || (127 =? bdIndefString)) with true. cbv iota.
+    rewrite fst_liftI.
+    change (flat_map (fun c => shead 3 (fst c) (N.of_nat (length (snd c))) ++ snd c) cs) with (flat_map (chunk_ser 3) cs).
+    rewrite <- app_assoc. cbn [app]. apply skip_chunks_ser; [assumption |].
+    rewrite !app_length in Hf. cbn [length] in Hf.
+    assert (length cs <= length (flat_map (fun c => shead 3 (fst c) (N.of_nat (length (snd c))) ++ snd c) cs))%nat
+      by (apply flat_len_ge; intros; rewrite shead_cons; cbn [app length]; lia).
+    lia.
+  - (* TArr *)
+    cbn [ser twf skippable sdepth] in *. destruct Hw as [Hw Hwl]. apply fix_Forall in Hwl. apply fix_Forall in Hs.
+    assert (Hok : Forall (skip_ok D) l) by (rewrite Forall_forall in *; intros x Hx; apply H; auto).
+    rewrite shead_cons. rewrite <- app_assoc. cbn [app]. rewrite skipw_S. unfold skip_body.
+    pose proof (ai_of_le _ _ Hw). rewrite kind_head by lia. rewrite (proj1 (proj2 (proj2 (proj2 (proj2 kind_vals))))). cbv iota.
+    pose proof (fold_max_nonneg sdepth l) as Hnn.
+    replace (depth_ok D d) with true by (symmetry; unfold depth_ok; apply Z.ltb_lt; lia). cbn [negb].
+    rewrite (head_neq 4 _ bdIndefArray) by (assumption || reflexivity).
+    rewrite hd_mod by lia.
+    erewrite fst_bindI by (rewrite fst_liftI; apply uint_bytes_head; assumption). cbv beta iota.
+    rewrite app_length, shead_cons in Hf. cbn [length] in Hf.
+    apply skip_n_ser; [assumption | lia | apply fold_max_Forall; lia].
+  - (* TArrI *)
+    cbn [ser twf skippable sdepth] in *. apply fix_Forall in Hw. apply fix_Forall in Hs.
+    assert (Hok : Forall (skip_ok D) l) by (rewrite Forall_forall in *; intros x Hx; apply H; auto).
+    cbn [app]. rewrite skipw_S. unfold skip_body.
+    change (kind_of 159) with KArr. cbv iota.
+    pose proof (fold_max_nonneg sdepth l) as Hnn.
+    replace (depth_ok D d) with true by (symmetry; unfold depth_ok; apply Z.ltb_lt; lia). cbn [negb].
+    change (159 =? bdIndefArray) with true. cbv iota.
+    rewrite !app_length in Hf. cbn [length] in Hf. rewrite <- app_assoc. cbn [app].
+    apply skip_indef_arr_ser; [assumption | assumption | lia | apply fold_max_Forall; lia].
+  - (* TMap *)
+    cbn [ser twf skippable sdepth] in *. destruct Hw as [Hw Hwl]. apply fix_Forall2 in Hwl. apply fix_Forall2 in Hs.
+    assert (Hok : Forall (skip_ok D) (flat_map (fun kv => [fst kv; snd kv]) l)).
+    { rewrite Forall_forall in *. intros x Hx. apply in_flat_map in Hx. destruct Hx as (kv & Hkv & Hx).
+      specialize (H kv Hkv). specialize (Hwl kv Hkv). specialize (Hs kv Hkv).
+      destruct Hx as [Hx | [Hx | []]]; subst x; [apply (proj1 H) | apply (proj2 H)]; tauto. }
+    rewrite shead_cons. rewrite <- app_assoc. cbn [app]. rewrite skipw_S. unfold skip_body.
+    pose proof (ai_of_le _ _ Hw). rewrite kind_head by lia. rewrite (proj1 (proj2 (proj2 (proj2 (proj2 (proj2 kind_vals)))))). cbv iota.
+    pose proof (fold_max_nonneg (fun kv => Z.max (sdepth (fst kv)) (sdepth (snd kv))) l) as Hnn.
+    replace (depth_ok D d) with true by (symmetry; unfold depth_ok; apply Z.ltb_lt; lia). cbn [negb].
+    rewrite (head_neq 5 _ bdIndefMap) by (assumption || reflexivity).
+    rewrite hd_mod by lia.
+    erewrite fst_bindI by (rewrite fst_liftI; apply uint_bytes_head; assumption). cbv beta iota.
+    rewrite app_length, shead_cons in Hf. cbn [length] in Hf.
+    change (flat_map (fun kv => ser (fst kv) ++ ser (snd kv)) l) with (flat_map pair_ser l) in *.
+    rewrite pairs_flat in *.
+    replace (2 * N.of_nat (length l)) with (N.of_nat (length (flat_map (fun kv => [fst kv; snd kv]) l))) by (rewrite pairs_flat_len; lia).
+    apply skip_n_ser; [assumption | lia |].
+    assert (Hd' : Forall (fun kv => ((d + 1) + Z.max (sdepth (fst kv)) (sdepth (snd kv)) < maxdepth D)%Z) l)
+      by (apply fold_max_Forall; lia).
+    rewrite Forall_forall in *. intros x Hx. apply in_flat_map in Hx. destruct Hx as (kv & Hkv & Hx).
+    specialize (Hd' kv Hkv). destruct Hx as [Hx | [Hx | []]]; subst x; lia.
+  - (* TMapI *)
+    cbn [ser twf skippable sdepth] in *. apply fix_Forall2 in Hw. apply fix_Forall2 in Hs.
+    assert (Hok : Forall (fun kv => skip_ok D (fst kv) /\ skip_ok D (snd kv)) l).
+    { rewrite Forall_forall in *. intros x Hx. specialize (H x Hx). specialize (Hw x Hx). specialize (Hs x Hx). split; [apply (proj1 H) | apply (proj2 H)]; tauto. }
+    cbn [app]. rewrite skipw_S. unfold skip_body.
+    change (kind_of 191) with KMap. cbv iota.
+    pose proof (fold_max_nonneg (fun kv => Z.max (sdepth (fst kv)) (sdepth (snd kv))) l) as Hnn.
+    replace (depth_ok D d) with true by (symmetry; unfold depth_ok; apply Z.ltb_lt; lia). cbn [negb].
+    change (191 =? bdIndefMap) with true. cbv iota.
+    rewrite !app_length in Hf. cbn [length] in Hf. rewrite <- app_assoc. cbn [app].
+    change (flat_map (fun kv => ser (fst kv) ++ ser (snd kv)) l) with (flat_map pair_ser l) in *.
+    apply skip_indef_map_ser; [assumption | assumption | lia |].
+    assert (Hd' : Forall (fun kv => ((d + 1) + Z.max (sdepth (fst kv)) (sdepth (snd kv)) < maxdepth D)%Z) l)
+      by (apply fold_max_Forall; lia).
+    rewrite Forall_forall in *. intros x Hx. specialize (Hd' x Hx). lia.
+  - (* TTag *)
+    cbn [ser twf skippable sdepth] in *. destruct Hw as [Hw Hwv].
+    rewrite shead_cons. rewrite <- app_assoc. cbn [app]. rewrite skipw_S. unfold skip_body.
+    pose proof (ai_of_le _ _ Hw). rewrite kind_head by lia.
+    rewrite (proj1 (proj2 (proj2 (proj2 (proj2 (proj2 (proj2 kind_vals))))))). cbv iota.
+    rewrite hd_mod by lia.
+    erewrite fst_bindI by (rewrite fst_liftI; apply uint_bytes_head; assumption). cbv beta iota.
+    assert (Hnn : (0 <= sdepth t0)%Z).
+    { clear. induction t0 using wtree_ind'; cbn [sdepth]; try lia.
+      - pose proof (fold_max_nonneg sdepth l). lia.
+      - pose proof (fold_max_nonneg sdepth l). lia.
+      - pose proof (fold_max_nonneg (fun kv => Z.max (sdepth (fst kv)) (sdepth (snd kv))) l). lia.
+      - pose proof (fold_max_nonneg (fun kv => Z.max (sdepth (fst kv)) (sdepth (snd kv))) l). lia. }
+    replace (depth_ok D d) with true by (symmetry; unfold depth_ok; apply Z.ltb_lt; lia). cbn [negb].
+    rewrite app_length, shead_cons in Hf. cbn [length] in Hf.
+    apply IHt; [assumption | assumption | lia | lia].
+  - (* TSimple *)
+    cbn [ser twf skippable] in *. cbn [app]. rewrite skipw_S. unfold skip_body.
+    assert (C : v = 20 \/ v = 21 \/ v = 22 \/ v = 23) by lia.
+    destruct C as [C | [C | [C | C]]]; subst v; reflexivity.
+  - cbn [skippable] in Hs. contradiction.
+  - cbn [ser twf] in *. cbn [app]. rewrite skipw_S. unfold skip_body.
+    change (kind_of 249) with KSimple. cbv iota. unfold skip_simple.
+    change ((249 =? bdNil) || (249 =? bdUndefined) || (249 =? bdFalse) || (249 =? bdTrue)) with false.
+    change (249 =? bdFloat16) with true. cbv iota. rewrite fst_liftI. apply (rskip_sbe 2).
+  - cbn [ser twf] in *. cbn [app]. rewrite skipw_S. unfold skip_body.
+    change (kind_of 250) with KSimple. cbv iota. unfold skip_simple.
+    change ((250 =? bdNil) || (250 =? bdUndefined) || (250 =? bdFalse) || (250 =? bdTrue)) with false.
+    change (250 =? bdFloat16) with false. change (250 =? bdFloat32) with true. cbv iota. rewrite fst_liftI. apply (rskip_sbe 4).
+  - cbn [ser twf] in *. cbn [app]. rewrite skipw_S. unfold skip_body.
+    change (kind_of 251) with KSimple. cbv iota. unfold skip_simple.
+    change ((251 =? bdNil) || (251 =? bdUndefined) || (251 =? bdFalse) || (251 =? bdTrue)) with false.
+    change (251 =? bdFloat16) with false. change (251 =? bdFloat32) with false. change (251 =? bdFloat64) with true. cbv iota.
+    rewrite fst_liftI. apply (rskip_sbe 8).
+Qed.
+
+Theorem tree_of_skippable : forall (O : eopts) (i : item), plain i -> skippable (tree_of O i).
+Proof.
+  intros O i. induction i using item_ind'; intros Hp; cbn [tree_of plain] in *.
+  - cbn. lia.
+  - destruct b; cbn; lia.
+  - unfold int_tree. destruct (z <? 0)%Z; exact I.
+  - exact I.
+  - exact I.
+  - exact I.
+  - unfold str_tree. destruct (eo_indef O); destruct (negb (eo_str2raw O)); exact I.
+  - unfold str_tree. destruct (eo_indef O); exact I.
+  - destruct Hp as [Hp _]. apply fix_Forall in Hp.
+    assert (Ht : Forall skippable (map (tree_of O) l)).
+    { apply Forall_map. rewrite Forall_forall in *. intros x Hx. apply H; auto. }
+    destruct (eo_indef O); cbn [skippable]; apply fix_Forall; assumption.
+  - destruct Hp as [Hp _]. apply fix_Forall2 in Hp.
+    assert (Ht : Forall (fun kv => skippable (fst kv) /\ skippable (snd kv)) (map (fun kv => (tree_of O (fst kv), tree_of O (snd kv))) l)).
+    { apply Forall_map. cbn [fst snd]. rewrite Forall_forall in *. intros x Hx. destruct (H x Hx), (Hp x Hx). split; auto. }
+    destruct (eo_indef O); cbn [skippable]; apply fix_Forall2; assumption.
+  - destruct Hp as [_ Hp]. cbn [skippable]. apply IHi; assumption.
+  - contradiction.
+  - contradiction.
+Qed.
+
+Lemma skip_ser_lemma : forall (D : dopts) (t : wtree) (d : Z) (rest : list N),
+  twf t -> skippable t -> (d + sdepth t < maxdepth D)%Z ->
+  skip D (fuel_for (ser t ++ rest)) d (ser t ++ rest) = Ok rest.
+Proof.
+  intros. unfold skip. apply skip_ser; try assumption.
+  unfold fuel_for. rewrite app_length. lia.
+Qed.
+
+Lemma skip_enc_lemma : forall (O : eopts) (D : dopts) (i : item) (d : Z) (rest : list N),
+  eo_optsize O = false -> wf i -> plain i -> (d + sdepth (tree_of O i) < maxdepth D)%Z ->
+  skip D (fuel_for (enc O i ++ rest)) d (enc O i ++ rest) = Ok rest.
+Proof.
+  intros O D i d rest Ho Hw Hp Hd. rewrite enc_ser by assumption.
+  apply skip_ser_lemma; [apply tree_of_twf | apply tree_of_skippable |]; assumption.
+Qed.
